@@ -5,7 +5,7 @@
    RAISE.  What a raising call leaves behind is part of the model:
 
      - a call rejected BEFORE any fitted attribute is written (validation of full/score_threshold,
-       of n_to_select, the warm-start guard `not hasattr(self, "n_selected_") or n_selected_ == 0`,
+       of n_to_select, a warm start asking for fewer items than are selected, the warm-start guard `not hasattr(self, "n_selected_") or n_selected_ == 0`,
        argument checks a subclass makes before it calls GreedySelector._init_greedy_search:
        VoronoiFPS full_fraction / n_trial_calculation, _CUR._compute_pi) leaves the object as it was;
      - a cold fit that raises INSIDE _init_greedy_search (the FPS family validates `initialize`
@@ -64,6 +64,9 @@ Section Session.
     | None => (o, RPre)
     | Some k =>
         if c_warm c then
+          (* a request that resolves to FEWER items than are selected: np.pad of the result
+             buffers with a negative width raises ValueError before anything is assigned *)
+          if match o with Some g0 => Nat.ltb k (length (sel g0)) | None => false end then (o, RPre) else
           match sfit cand ycand o c [] str with
           | Rejected => (o, RPre)
           | Fitted g st => (Some g, ROk g st)
